@@ -440,6 +440,16 @@ func (w *world) call(bs blockstore.Blockstore, f []string) string {
 			return "err"
 		}
 		return "ok"
+	case "enumplain": // Blockstore.AllKeysChan: the plain pass-through (no error function)
+		ch, err := bs.AllKeysChan(ctx)
+		if err != nil {
+			return "err"
+		}
+		var ks []string
+		for c := range ch {
+			ks = append(ks, strconv.Itoa(w.p.idx[string(c.Hash())]))
+		}
+		return fmt.Sprintf("keys:%s:-", strings.Join(ks, ","))
 	case "enum":
 		e, ok := bs.(blockstore.AllKeysChanWithErrer)
 		if !ok {
@@ -554,7 +564,7 @@ func execSeq(c vh.Case, o *vh.Out) {
 			ff := failFlag(f)
 			w.w.setFail(ff)
 			w.ref.setFail(ff)
-			if f[0] == "enum" {
+			if f[0] == "enum" || f[0] == "enumplain" {
 				cut, mode := vh.Atoi(f[1]), vh.Atoi(f[2])
 				w.w.setEnum(cut, mode, nil)
 				w.ref.setEnum(cut, mode, nil)
@@ -1192,7 +1202,11 @@ func genSeq(r *vh.Rand, tier string, id string) vh.Case {
 			if mode == 2 {
 				mode = 1
 			}
-			c.Ops = append(c.Ops, fmt.Sprintf("enum %d %d", cut, mode))
+			if r.Chance(1, 3) {
+				c.Ops = append(c.Ops, fmt.Sprintf("enumplain %d %d", cut, mode))
+			} else {
+				c.Ops = append(c.Ops, fmt.Sprintf("enum %d %d", cut, mode))
+			}
 		}
 	}
 	return c
